@@ -35,6 +35,7 @@ def ops():
     for k in K:
         for v in V:
             out += [("set", k, v), ("append", k, v), ("setdefault", k, v)]
+        out += [("setdefault", k, None)]  # setdefault(key) without a default stores None: a value like any other
         out += [("del", k), ("pop", k), ("popd", k), ("poplist", k), ("setlist", k, ()), ("setlist", k, ("1",)), ("setlist", k, ("2", "1")), ("setlist", k, ("", ""))]
     out += [("popitem",), ("clear",), ("update_self",), ("update_self_items",), ("update_pairs", (("a", "2"),)), ("update_pairs", (("b", "1"), ("b", "2"))), ("update_map", (("a", ""), ("b", "1"))), ("update_kw", (("b", "2"),))]
     return out
@@ -168,8 +169,8 @@ def views(m):
         "keys_unique": len(keys) == len(set(keys)),
         "len": len(m),
         "in": {k: (k in m) for k in PROBE_KEYS},
-        "items": sorted(m.items()),
-        "values": sorted(m.values()),
+        "items": sorted(m.items(), key=repr),
+        "values": sorted(m.values(), key=repr),
         "get": {k: m.get(k, "dflt") for k in PROBE_KEYS},
         "iter": sorted(iter(m)),
     }
@@ -188,8 +189,8 @@ def ref_views(l):
         "keys_unique": True,
         "len": len(d),
         "in": {k: (k in d) for k in PROBE_KEYS},
-        "items": sorted(d.items()),
-        "values": sorted(d.values()),
+        "items": sorted(d.items(), key=repr),
+        "values": sorted(d.values(), key=repr),
         "get": {k: d.get(k, "dflt") for k in PROBE_KEYS},
         "iter": sorted(d),
     }
@@ -279,7 +280,10 @@ def immutable_views(r, l, w):
             if vs != rv:
                 diff = sorted(k for k in vs if vs[k] != rv[k])
                 r.violation(f"built-views:{cls.__name__}:{sname}", {"pairs": list(l), "cls": cls.__name__, "shape": sname}, f"{cls.__name__}(<{sname} of {l}>) views {diff} differ: {[vs[k] for k in diff]} vs {[rv[k] for k in diff]}")
-        # copy-construction and equality
+        # copy-construction and equality (on text values: the statement speaks of equality for query mappings, whose values are
+        # text; a None stored by setdefault(key) is a value for every *view*, but comparing mappings that hold it is not claimed)
+        if any(v is None for _, v in l):
+            continue
         try:
             same = cls(cls(list(l))) == cls(list(l)) and cls(list(l)) == cls(list(reversed(l))) and not (cls(list(l)) == cls(list(l) + [("q", "q")]))
         except Exception as e:  # noqa
